@@ -472,3 +472,12 @@ impl<'a> VacantEntry<'a> {
         Key { index, stream_id }
     }
 }
+
+#[cfg(feature = "verif-hooks")]
+impl Store {
+    pub(super) fn verif_snap(&self) -> (usize, usize, Vec<crate::verif::StreamSnap>) {
+        let mut streams: Vec<_> = self.slab.iter().map(|(_, s)| s.verif_snap()).collect();
+        streams.sort_by_key(|s| s.id);
+        (self.slab.len(), self.ids.len(), streams)
+    }
+}
